@@ -507,6 +507,19 @@ def main(argv=None):
         "wall_s": round(wall, 2),
         "violations": len(violations),
     }
+    if not targets:
+        # a property that is not claimed (no function under contract): the auxiliary bounded run is reported as what it
+        # is -- an exploration -- never as a proof
+        ev_total = sum(int(b.get("evaluations") or 0) for b in bounded)
+        dist = sum(int(b.get("distinct") or b.get("evaluations") or 0) for b in bounded)
+        evidence["level"] = "exploration"
+        cov = evidence["coverage"]
+        for k in ("obligations", "discharged"):
+            cov.pop(k, None)
+        cov.update({"evaluations": ev_total, "distinct_nontrivial": dist,
+                    "rule": "NOT a proof and not claimed in MANIFEST.json (listed under not_applicable): the bounded run(s) named in "
+                            "bounded_standins_and_validations; a case is one generated input of such a run, distinct by construction",
+                    "samples": [smp for b in bounded for smp in (b.get("samples") or [])][:3] or [b.get("what") for b in bounded][:1]})
     os.makedirs(os.path.join(HERE, "evidence"), exist_ok=True)
     with open(os.path.join(HERE, "evidence", pid + ".json"), "w") as f:
         json.dump(evidence, f, indent=1, default=str)
